@@ -29,7 +29,7 @@ func checkC01(c *km.Ctx) {
 	r.Assume = []string{"go/types + go/ssa model the source faithfully", "go-jose rejects forged tokens; crypto/tls verifies client chains"}
 
 	r.Rule("R-C01-1", "every user-certificate signing call reachable from the certgen route is dominated by Unsealed ∧ Authed ∧ Sufficient ∧ target==auth user ∧ POST, and its user argument is the authenticated user name", 2)
-	r.Rule("R-C01-2", "the sufficient-level flag starts false and every assignment of true is controlled by exactly: listed=='password'; or listed==K ∧ session has bit K (same constant name in proto and main); or session has the U2F bit", 8)
+	r.Rule("R-C01-2", "the sufficient-level flag starts false and every assignment of true is controlled by exactly: listed=='password'; or listed==K ∧ session has bit K (same constant name in proto and main); or session has the U2F bit", 3)
 	r.Rule("R-C01-3", "inside checkAuth every success return / credential bit is dominated by the verifier of its branch (cookie: verified, unexpired, level accepted; basic: limiter, password accepted; certificate: verified chain, helper success)", 6)
 	r.Rule("R-C01-4", "the certgen route is registered once on the service mux and its handler slices the target user off the route pattern's length", 1)
 
@@ -160,7 +160,7 @@ func findLevelFlag(fn *ssa.Function) *ssa.Phi {
 			}
 		}
 		walk(phi)
-		if hasT && hasF && len(seen) >= 4 {
+		if hasT && hasF && len(seen) >= 2 {
 			cands = append(cands, phi)
 		}
 	})
@@ -219,33 +219,6 @@ func checkLevelFlag(c *km.Ctx, s *km.Sem, h *ssa.Function, flag *ssa.Phi) {
 		_, path, ok := km.FieldPath(ia.X)
 		return ok && strings.HasSuffix(path, "Base.AllowedAuthBackendsForCerts")
 	}
-	// bit test on the session level: (level & K) == K  or  (level & K) != 0
-	bitOf := func(f km.Fact) (int64, bool) {
-		b, ok := f.X.(*ssa.BinOp)
-		if !ok || b.Op != token.AND {
-			return 0, false
-		}
-		var k ssa.Value
-		if s.Is(b.X, km.RoleAuthLevel) {
-			k = b.Y
-		} else if s.Is(b.Y, km.RoleAuthLevel) {
-			k = b.X
-		} else {
-			return 0, false
-		}
-		kv, ok := km.ConstInt(k)
-		if !ok {
-			return 0, false
-		}
-		y, ok := km.ConstInt(f.Y)
-		if !ok {
-			return 0, false
-		}
-		if (f.Op == token.EQL && y == kv) || (f.Op == token.NEQ && y == 0) {
-			return kv, true
-		}
-		return 0, false
-	}
 	seen := map[*ssa.Phi]bool{}
 	var phis []*ssa.Phi
 	var walk func(p *ssa.Phi)
@@ -282,39 +255,84 @@ func checkLevelFlag(c *km.Ctx, s *km.Sem, h *ssa.Function, flag *ssa.Phi) {
 					continue
 				}
 				nTrue++
-				facts := controllingFacts(c, pred)
-				var listed []string
-				var bits []int64
-				var other []string
-				for _, f := range facts {
-					if f.Op == token.EQL {
-						if cs, ok := km.ConstString(f.Y); ok && isListed(f.X) {
-							listed = append(listed, cs)
-							continue
+				// every way of reaching this assignment (every disjunct of the facts on the edge) must carry one of
+				// the three licences; extra conjuncts only make the grant stricter and are of no concern here
+				edge := c.F.OnEdge(pred, p.Block())
+				constOf := func(k km.Conj, v ssa.Value) (int64, bool) {
+					if kv, ok := km.ConstInt(v); ok {
+						return kv, true
+					}
+					v = km.Unwrap(v)
+					for _, g := range k.List() {
+						if g.Op == token.EQL && g.X == v {
+							if kv, ok := km.ConstInt(g.Y); ok {
+								return kv, true
+							}
 						}
 					}
-					if k, ok := bitOf(f); ok {
-						bits = append(bits, k)
-						continue
-					}
-					// loop-continuation facts (range index < len) are not decision inputs
-					if isRangeBound(f) {
-						continue
-					}
-					other = append(other, f.String())
+					return 0, false
 				}
-				desc := sprintf("listed=%v bits=%v other=%v", listed, bitNames(bits, mainByVal), other)
-				ok := false
-				switch {
-				case len(other) > 0:
-				case len(listed) == 1 && len(bits) == 0:
-					ok = protoByVal[listed[0]] == "AuthTypePassword"
-				case len(listed) == 1 && len(bits) == 1:
-					ok = protoByVal[listed[0]] != "" && protoByVal[listed[0]] == mainByVal[bits[0]]
-				case len(listed) == 0 && len(bits) == 1:
-					ok = bits[0] == u2fBit
+				var descs []string
+				ok := len(edge) > 0
+				for _, k := range edge {
+					var listed []string
+					var bits []int64
+					for _, f := range k.List() {
+						if f.Op == token.EQL {
+							if cs, isC := km.ConstString(f.Y); isC && isListed(f.X) {
+								listed = append(listed, cs)
+								continue
+							}
+						}
+						// (level & K) == K or (level & K) != 0, K a constant or a value this path pins to a constant
+						if b, isB := f.X.(*ssa.BinOp); isB && b.Op == token.AND {
+							var kval ssa.Value
+							if s.Is(b.X, km.RoleAuthLevel) {
+								kval = b.Y
+							} else if s.Is(b.Y, km.RoleAuthLevel) {
+								kval = b.X
+							}
+							if kval == nil {
+								continue
+							}
+							kv, isK := constOf(k, kval)
+							if !isK {
+								continue
+							}
+							if f.Op == token.EQL {
+								if y, isY := constOf(k, f.Y); isY && y == kv {
+									bits = append(bits, kv)
+								}
+							} else if f.Op == token.NEQ {
+								if y, isY := km.ConstInt(f.Y); isY && y == 0 && kv != 0 && kv&(kv-1) == 0 {
+									bits = append(bits, kv)
+								}
+							}
+						}
+					}
+					good := false
+					for _, l := range listed {
+						if protoByVal[l] == "AuthTypePassword" {
+							good = true
+						}
+						for _, bt := range bits {
+							if protoByVal[l] != "" && protoByVal[l] == mainByVal[bt] {
+								good = true
+							}
+						}
+					}
+					for _, bt := range bits {
+						if bt == u2fBit {
+							good = true
+						}
+					}
+					descs = appendUniq(descs, sprintf("listed=%v bits=%v ok=%v", listed, bitNames(bits, mainByVal), good))
+					if !good {
+						ok = false
+					}
 				}
-				c.R.Add("R-C01-2", km.FuncName(h), "flag := true", posOf(c, pred.Instrs[len(pred.Instrs)-1]), "controlled by exactly {listed=='password'} | {listed==K ∧ level has bit K, same name} | {level has U2F bit}", desc, ok)
+				sort.Strings(descs)
+				c.R.Add("R-C01-2", km.FuncName(h), "flag := true", posOf(c, pred.Instrs[len(pred.Instrs)-1]), "on every path to the assignment: listed=='password', or listed==K ∧ level has bit K (same constant name in proto and main), or level has the U2F bit", clipS(strings.Join(descs, " | "), 600), ok)
 			default:
 				c.R.Add("R-C01-2", km.FuncName(h), "flag operand (computed)", posOf(c, p), "flag operands are the constants true/false", km.ValStr(e), false)
 			}
